@@ -40,7 +40,9 @@ Check(m, e) ==
     [] e.a = "measure" ->
          LET frame == e.unit \div e.rmin + 1                     \* one device frame, in the unit of the measurement (ms or us)
              lo == CASE e.what = "sound" -> e.secs1000 - frame
-                     [] e.what = "clock" -> e.secs1000 - frame
+                     \* (the clock is read once per callback, and what the handle shows may be the time at the start or at the
+                     \*  end of the callback just run: one callback either way)
+                     [] e.what = "clock" -> e.secs1000 - e.cbf * frame
                      [] e.what = "filter" -> e.secs1000 - frame - e.secs1000 \div 10
                      [] OTHER -> e.secs1000 - frame
              hi == CASE e.what = "sound" -> e.secs1000 + 2 * e.srcms + frame
